@@ -13,6 +13,7 @@ package c13
 
 import (
 	"sync"
+	"sync/atomic"
 	"time"
 
 	ic "github.com/libp2p/go-libp2p/core/crypto"
@@ -29,6 +30,11 @@ const (
 )
 
 type callSched struct {
+	// calls of the service into the address book that have not returned yet. At a quiescent point
+	// (synctest.Wait has returned) a positive number means that identify is parked inside the
+	// address book, waiting for something that is not a lock: another component.
+	inBook atomic.Int32
+
 	mu    sync.Mutex
 	peer  peer.ID
 	class int
@@ -89,36 +95,52 @@ type idPeerstore struct {
 }
 
 func (w *idPeerstore) AddAddr(p peer.ID, a ma.Multiaddr, ttl time.Duration) {
+	w.s.inBook.Add(1)
 	w.psWrap.AddAddr(p, a, ttl)
+	w.s.inBook.Add(-1)
 	w.s.after(p, "AddAddr")
 }
 func (w *idPeerstore) AddAddrs(p peer.ID, a []ma.Multiaddr, ttl time.Duration) {
+	w.s.inBook.Add(1)
 	w.psWrap.AddAddrs(p, a, ttl)
+	w.s.inBook.Add(-1)
 	w.s.after(p, "AddAddrs")
 }
 func (w *idPeerstore) SetAddr(p peer.ID, a ma.Multiaddr, ttl time.Duration) {
+	w.s.inBook.Add(1)
 	w.psWrap.SetAddr(p, a, ttl)
+	w.s.inBook.Add(-1)
 	w.s.after(p, "SetAddr")
 }
 func (w *idPeerstore) SetAddrs(p peer.ID, a []ma.Multiaddr, ttl time.Duration) {
+	w.s.inBook.Add(1)
 	w.psWrap.SetAddrs(p, a, ttl)
+	w.s.inBook.Add(-1)
 	w.s.after(p, "SetAddrs")
 }
 func (w *idPeerstore) UpdateAddrs(p peer.ID, o, n time.Duration) {
+	w.s.inBook.Add(1)
 	w.psWrap.UpdateAddrs(p, o, n)
+	w.s.inBook.Add(-1)
 	w.s.after(p, "UpdateAddrs")
 }
 func (w *idPeerstore) Addrs(p peer.ID) []ma.Multiaddr {
+	w.s.inBook.Add(1)
 	res := w.psWrap.Addrs(p)
+	w.s.inBook.Add(-1)
 	w.s.after(p, "Addrs")
 	return res
 }
 func (w *idPeerstore) ClearAddrs(p peer.ID) {
+	w.s.inBook.Add(1)
 	w.psWrap.ClearAddrs(p)
+	w.s.inBook.Add(-1)
 	w.s.after(p, "ClearAddrs")
 }
 func (w *idPeerstore) PeerInfo(p peer.ID) peer.AddrInfo {
+	w.s.inBook.Add(1)
 	res := w.psWrap.PeerInfo(p)
+	w.s.inBook.Add(-1)
 	w.s.after(p, "PeerInfo")
 	return res
 }
@@ -173,7 +195,9 @@ func (w *idPeerstore) AddPubKey(p peer.ID, k ic.PubKey) error {
 	return err
 }
 func (w *idPeerstore) ConsumePeerRecord(e *record.Envelope, ttl time.Duration) (bool, error) {
+	w.s.inBook.Add(1)
 	ok, err := w.psWrap.ConsumePeerRecord(e, ttl)
+	w.s.inBook.Add(-1)
 	if r, rerr := e.Record(); rerr == nil {
 		if pr, isPR := r.(*peer.PeerRecord); isPR {
 			w.s.after(pr.PeerID, "ConsumePeerRecord")
